@@ -131,6 +131,9 @@ func (s *Sniffer) readStreamOnceWithReadDeadline() error {
 
 	var netErr net.Error
 	if errors.As(err, &netErr) && netErr.Timeout() {
+		// The sniff window elapsed but the stream itself is healthy: the timeout
+		// must not be replayed by later Read calls of the relay.
+		s.dataError = nil
 		// Keep behavior consistent with context timeout path in the legacy async read.
 		return fmt.Errorf("%w: %w", ErrNotApplicable, context.DeadlineExceeded)
 	}
@@ -172,6 +175,8 @@ func (s *Sniffer) readStreamOnceAsync() error {
 			_ = s.conn.SetReadDeadline(time.Unix(1, 0))
 			<-ready
 			_ = s.conn.SetReadDeadline(time.Time{})
+			// The sniff window elapsed but the stream itself is healthy.
+			s.dataError = nil
 		}
 		return fmt.Errorf("%w: %w", ErrNotApplicable, context.DeadlineExceeded)
 	}
